@@ -561,11 +561,12 @@ def run(ctx):
     # message's own id for every message the tracker accepts (engine and layout oracle of C12; a getter that answers differently
     # for some valid payloads files those messages under another key)
     from cmpverif import accessors
-    obs, _ = accessors.analyse(fb, ctx.spec("layout.json"))
+    obs, ast = accessors.analyse(fb, ctx.spec("layout.json"), scope=lambda cls, stem: (cls, stem) in ((NS + "InterfacePayload", "InterfaceId"), (NS + "Packet", "DeviceId")))
     kx = [o for o in obs if o.key in (NS + "InterfacePayload::getInterfaceId", NS + "Packet::getDeviceId", NS + "Packet::DeviceId",
                                       NS + "InterfacePayload::Header::getInterfaceId")]
     for o in kx:
         res.check(o.ok, "C16-R1", "key-extractor:" + o.key, o.loc, o.detail)
+    accessors.require_supported(ast)
     if len(kx) < 3:
         raise Broken("C16-R1: key extractor obligations not found (%d)" % len(kx))
     res.floor("C16-R1", 7)
